@@ -420,6 +420,9 @@ class MultiFit(FitBase):
 
         if axis not in [None, "x", "y"]:
             raise ValueError("axis must be one of: None, 'x', 'y'")
+        for _fit_index in error_object.fit_indices:
+            if not 0 <= _fit_index < len(self._fits):
+                raise ValueError("There is no fit with index %s (the MultiFit has %s fits)!" % (_fit_index, len(self._fits)))
         _data_size_0 = self._fits[error_object.fit_indices[0]].data_size
         for _fit_index in error_object.fit_indices:
             if not self._fits[_fit_index]._cost_function.is_chi2:
